@@ -749,18 +749,17 @@ private def sHist : HHistory :=
 example : (hRegister sHist).deps 10 = [1, 3] ∧ (hRegister sHist).handlers 0 0 20 = [1, 3] ∧
     (hRegister sHist).ignore 1 = [20] ∧ (hRegister sHist).ignore 2 = [] := by decide
 
-/-! ### "returns None" is stored as a value: the third finding -/
+/-! ### returning None is a value
 
-/-- full-strength reading of "yields nothing" that includes returning None: when the supplier's entry is the
-value None, the spec is absent -/
-def NoneResultAbsentFull : Prop :=
-  ∀ (root : Root) (env : World) (h : History) (n : Name) (p c v : Comp) (inG : Comp → Bool) (ss : Bool)
-    (seed : Inst) (o : List Comp),
-    root.registry n = some p → root.nameOf p = some n →
-    Valid (world root env (register root h)) inG seed o → p ∈ evald inG o →
-    supplier h n c = some v →
-    (runComponents (world root env (register root h)) inG ss o (Broker.seeded seed)).inst v = some .none →
-    (runComponents (world root env (register root h)) inG ss o (Broker.seeded seed)).inst p = none
+Presence, not value, decides in this engine (C02): a datasource that returns None has SUCCEEDED with the value
+None.  The spec is then present with None — the latest implementation's own result; nothing is taken from an
+overridden implementation.  Only a raising implementation produces nothing. -/
+
+/-- what the model does with a datasource body that returns None: the result is stored like any value -/
+theorem none_result_is_a_value (w : World) (ss : Bool) (c : Comp) (d : Decl) (i : Inst)
+    (hk : d.kind = .datasource) (hb : w.body c (d.deps.map i) = .value .none) :
+    invoke w ss c d i = .stored .none [] := by
+  simp [invoke, hk, hb]
 
 private def nEnv : World where
   decl c := if c = 2 then some ⟨.datasource, [.one 20], []⟩ else none
@@ -771,29 +770,8 @@ private def nEnv : World where
   elemBody _ _ := .noResult
 private def nHist : History := [⟨true, [⟨0, 2, [20]⟩]⟩]
 private def nIn : Comp → Bool := fun c => c = 2 ∨ c = 10 ∨ c = 20
-
-theorem none_order_valid : Valid (world wRoot nEnv (register wRoot nHist)) nIn wSeed [20, 2, 10] := by
-  refine ⟨by decide, ?_, ?_⟩
-  · intro pre c post ho hc d hd hdg
-    have h20 : (world wRoot nEnv (register wRoot nHist)).deps 20 = [] := by decide
-    have h2 : (world wRoot nEnv (register wRoot nHist)).deps 2 = [20] := by decide
-    have h10 : (world wRoot nEnv (register wRoot nHist)).deps 10 = [2] := by decide
-    rcases pre with _ | ⟨a1, _ | ⟨a2, _ | ⟨a3, pre⟩⟩⟩ <;> simp at ho
-    · obtain ⟨rfl, rfl⟩ := ho; rw [h20] at hd; simp at hd
-    · obtain ⟨_, rfl, rfl⟩ := ho; rw [h2] at hd; simp at hd; subst hd; decide
-    · obtain ⟨_, _, rfl, rfl⟩ := ho; rw [h10] at hd; simp at hd; subst hd; decide
-  · intro c hc _ x hx
-    have hi : ∀ k ∈ [20, 2, 10], (world wRoot nEnv (register wRoot nHist)).ignore k = [] := by decide
-    rw [hi c hc] at hx; simp at hx
-
-/-- FALSE of the current code (and of the model, which mirrors it): `broker[component] = result` stores None like
-any value, the registry point finds the implementation in the broker and is itself present with None -/
-theorem none_result_witness : ¬ NoneResultAbsentFull := by
-  intro hfull
-  have := hfull wRoot nEnv nHist 0 10 20 2 nIn false wSeed [20, 2, 10] rfl rfl none_order_valid
-    (by decide) (by decide) (by decide)
-  revert this
-  decide
+example : (runComponents (world wRoot nEnv (register wRoot nHist)) nIn false [20, 2, 10] (Broker.seeded wSeed)).inst 10
+    = some .none := by decide
 
 /-! ### derived execution contexts
 
